@@ -416,6 +416,10 @@ func convertToFloat(unknown any) (float64, bool) {
 	floatType := reflect.TypeOf(float64(0))
 	v := reflect.ValueOf(unknown)
 	v = reflect.Indirect(v)
+	// A null in the input (or a nil pointer) has no value to convert.
+	if !v.IsValid() {
+		return 0, false
+	}
 	if !v.Type().ConvertibleTo(floatType) {
 		return 0, false
 	}
